@@ -2019,6 +2019,12 @@ func (m *e2Machine) checkSnapshots() *pt.Violation {
 			var wd bson.D
 			bson.Unmarshal(wb, &wd)
 			if a, b := normJSON(body), normJSON(wd); a != b {
+				for _, e := range wd {
+					if typ == "doc" && (e.Key == "_id" || e.Key == "_orda_ver_") {
+						// the datatype's own members and the two fields the server adds share one document
+						return viol("C11:user-document-loses-member-named-like-a-server-field:"+e.Key, "the document %s/%s has a member named %q, which is also a field the server sets in the user's collection: the user document at version %d reads %s, the JSON view of log[1..%d] is %s", coll, key, e.Key, ver, a, ver, b)
+					}
+				}
 				return viol("C11:user-document-differs-from-log-prefix:"+typ, "user document %s/%s at version %d is %s, the JSON view of log[1..%d] is %s", coll, key, ver, a, ver, b)
 			}
 		}
